@@ -833,6 +833,16 @@ VSattach(HFILEID     f,    /* IN: file handle */
         if (acc_mode == 'r')
             HGOTO_ERROR(DFE_BADACC, FAIL);
 
+        /* a new vdata cannot be stored in a file opened only for reading */
+        {
+            filerec_t *file_rec = HAatom_object(f);
+
+            if (BADFREC(file_rec))
+                HGOTO_ERROR(DFE_ARGS, FAIL);
+            if (!(file_rec->access & DFACC_WRITE))
+                HGOTO_ERROR(DFE_BADACC, FAIL);
+        }
+
         /* otherwise 'w' */
         /* allocate space for vs,  & zero it out  */
         if ((vs = VSIget_vdata_node()) == NULL)
@@ -1398,6 +1408,16 @@ VSdelete(int32 f, /* IN: file handle */
     /* check valid vdata id */
     if (vsid < -1)
         HGOTO_ERROR(DFE_ARGS, FAIL);
+
+    /* check for write-permission to file (before the vdata is dropped from memory) */
+    {
+        filerec_t *file_rec = HAatom_object(f);
+
+        if (BADFREC(file_rec))
+            HGOTO_ERROR(DFE_ARGS, FAIL);
+        if (!(file_rec->access & DFACC_WRITE))
+            HGOTO_ERROR(DFE_BADACC, FAIL);
+    }
 
     /* get vdata file record */
     if (NULL == (vf = Get_vfile(f)))
